@@ -11,6 +11,7 @@
 Python equivalents of text excel functions (lower, upper, etc.)
 """
 import collections
+import decimal
 import itertools as it
 import locale
 import re
@@ -298,19 +299,23 @@ class TextFormat:
             return ''.join(t.token for t in tokenized_format.tokens)
 
     def _number_converter(self, number_value, tokenized: Tokenized):
-        number_value *= 100 ** tokenized.percents
+        # scale and round the decimal rendering of the number, as Excel does
+        number_value = decimal.Decimal(str(number_value)) * 100 ** tokenized.percents
         number_format = ''.join(
             t.token for t in tokenized.tokens if t.type == self.TokenType.NUMBER)
         thousands = self.thousands_format if tokenized.thousands else ''
 
-        if tokenized.decimal:
-            left_num_format, right_num_format = number_format.split('.', 1)
-            decimals = len(right_num_format)
-            left_side, right_side = f'{number_value:#{thousands}.{decimals}f}'.split('.')
-            right_side = right_side.rstrip('0')
-        else:
-            left_side = f'{int(round(number_value, 0)):{thousands}}'
-            right_side = None
+        with decimal.localcontext() as ctx:
+            ctx.rounding = decimal.ROUND_HALF_UP
+            if tokenized.decimal:
+                left_num_format, right_num_format = number_format.split('.', 1)
+                decimals = len(right_num_format)
+                left_side, _, right_side = \
+                    f'{number_value:{thousands}.{decimals}f}'.partition('.')
+                right_side = right_side.rstrip('0')
+            else:
+                left_side = f'{number_value:{thousands}.0f}'
+                right_side = None
         left_side = left_side.lstrip('0')
 
         tokens_iter = iter(tokenized.tokens)
